@@ -40,6 +40,7 @@ GHOST static void gch_recv_begin(int c) {
   ch_recvs_begun[c]++;
   vs_rt_exit();
 }
+GHOST static void gch_recv_unbegin(int c) { ch_recvs_begun[c]--; }
 GHOST static void gch_occupancy(int c) {
   vs_rt_enter();
   if (ch_cap[c] && ch_sends_done[c] - ch_recvs_begun[c] > ch_cap[c])
@@ -63,8 +64,12 @@ GHOST static void gch_recv(int c, int idx, void* m) {
 }
 GHOST static void g_incr(int* c) { (*c)++; }
 
+// cfg shared_signal 1: every channel of the case is created on signal 0 (one receiver waits for "any of them")
+static int ch_shared;
+#define SIG(c) (ch_shared ? &ch_sig[0] : &ch_sig[c])
 static void chan_setup(void) {
   long n = cfg_get("nchan", 0);
+  ch_shared = (int)cfg_get("shared_signal", 0);
   for (int c = 0; c < n && c < NCH; c++) {
     char k[16] = "chan_type0";
     k[9] = (char)('0' + c);
@@ -79,11 +84,11 @@ static void chan_setup(void) {
       case CH_BOUNDED_SIG:
       case CH_BOUNDED_SPIN:
         ch_cap[c] = 1 << lg;
-        ch_b[c] = fiber_bounded_channel_create((uint32_t)lg, ch_type[c] == CH_BOUNDED_SIG ? &ch_sig[c] : 0);
+        ch_b[c] = fiber_bounded_channel_create((uint32_t)lg, ch_type[c] == CH_BOUNDED_SIG ? SIG(c) : 0);
         break;
       case CH_UNBOUNDED:
         RT_DIRTY(ch_u[c]);
-        fiber_unbounded_channel_init(&ch_u[c], &ch_sig[c]);
+        fiber_unbounded_channel_init(&ch_u[c], SIG(c));
         break;
       case CH_UNBOUNDED_SPIN:
         RT_DIRTY(ch_u[c]);
@@ -91,7 +96,7 @@ static void chan_setup(void) {
         break;
       case CH_UNBOUNDED_SP:
         RT_DIRTY(ch_sp[c]);
-        fiber_unbounded_sp_channel_init(&ch_sp[c], &ch_sig[c]);
+        fiber_unbounded_sp_channel_init(&ch_sp[c], SIG(c));
         break;
     }
   }
@@ -158,6 +163,58 @@ static int chan_do_op(int idx, op_t* op) {
         g_incr(&ch_recv_blocked);
       gch_recv(c, idx, m);
       if (op->c) rt_work(idx, op->c);
+    }
+    return 1;
+  }
+  if (!strcmp(op->name, "selrecv")) {
+    // one receiver for all channels of the case, which share one signal: poll every channel with try_receive, sleep on the
+    // signal when all were empty, until b messages have arrived
+    long nch = cfg_get("nchan", 1);
+    for (int got = 0; got < op->b;) {
+      // one pass: drain channel 0, then channel 1 (each until it reports empty), then sleep on the signal - a message that
+      // arrives in a channel after it was drained has raised the signal, so the sleep returns at once
+      for (int k = 0; k < nch && k < NCH && got < op->b; k++) {
+       for (;;) {
+        void* m = 0;
+        gch_recv_begin(k);
+        g_nb_enter(idx);
+        switch (ch_type[k]) {
+          case CH_BOUNDED_SIG:
+            if (!fiber_bounded_channel_try_receive(ch_b[k], &m)) m = 0;
+            break;
+          case CH_UNBOUNDED: {
+            fiber_unbounded_channel_message_t* n = fiber_unbounded_channel_try_receive(&ch_u[k]);
+            if (n) {
+              m = n->data;
+              free(n);
+            }
+            break;
+          }
+          default: {
+            fiber_unbounded_sp_channel_message_t* n = fiber_unbounded_sp_channel_try_receive(&ch_sp[k]);
+            if (n) {
+              m = n->data;
+              free(n);
+            }
+            break;
+          }
+        }
+        g_nb_exit(idx);
+        if (!m) {
+          gch_recv_unbegin(k);
+          break;
+        }
+        gch_recv(k, idx, m);
+        got++;
+        if (op->c) rt_work(idx, op->c);
+        if (got >= op->b) break;
+       }
+      }
+      if (got < op->b) {
+        int before = g_fiber_switches(idx);
+        fiber_signal_wait(&ch_sig[0]);
+        if (g_fiber_switches(idx) != before) g_incr(&ch_recv_blocked);
+      }
     }
     return 1;
   }
@@ -364,6 +421,7 @@ GHOST static void gsl_check(int idx, long req_us, uint64_t d_call, uint64_t d_re
   vs_rt_exit();
 }
 
+static volatile int sl_flag[8];
 static void real_sleep_trap(const char* which) {
   if (g_cur_idx() >= 0) vs_violation("kernel_thread_blocked", "a fiber reached the real libc %s (would block its kernel thread)", which);
 }
@@ -374,6 +432,21 @@ static int sleep_do_op(int idx, op_t* op) {
   if (!strcmp(op->name, "tick")) {
     // virtual time passes while the fiber is busy: expirations pile up unread
     vs_timer_tick((uint64_t)op->a);
+    return 1;
+  }
+  if (!strcmp(op->name, "pollflag")) {
+    // a fiber that polls with fiber_yield for something a sleeping fiber will do after it wakes; virtual time passes while it
+    // polls (one tick per iteration), the kernel thread never goes idle
+    long n = 0;
+    while (!sl_flag[op->a & 7]) {
+      vs_timer_tick(1);
+      fiber_yield();
+      if (++n > 2000000) vs_violation("livelock", "fiber %d polled 2000000 times (10000 s of virtual time) for a sleeper that was never resumed", idx);
+    }
+    return 1;
+  }
+  if (!strcmp(op->name, "setflag")) {
+    sl_flag[op->a & 7] = 1;
     return 1;
   }
   if (strcmp(op->name, "sleep")) return 0;
